@@ -1087,7 +1087,7 @@ def _run(tier):
         charset_correspondence(ctx, model)
         pattern_correspondence(ctx, model, r, 150 if tier == "quick" else 2500)
     run_texts(ctx, base_texts(), model, "corpus+boundary")
-    n = 20000 if tier == "quick" else 400000
+    n = 20000 if tier == "quick" else 1200000
     batch = 5000 if tier == "quick" else 20000
     done = 0
     while done < n and len(chk.violations) < 20:
